@@ -231,6 +231,8 @@ def render_chain(c):
     `export *`.  Files are m<i>.ts (i = index of the first link they hold), so files of one layout have the same text shape."""
     n, kind, style = c["len"], c["kind"], c["style"]
     fof = c["files"]            # file tag of link i: "entry" or the index of the file's first link
+    if kind == "nsvalue":
+        return render_nsvalue(c)
 
     def pref(i):
         if kind in ("const", "constprop", "tupconst"):
@@ -298,6 +300,39 @@ def render_chain(c):
     return files
 
 
+def render_nsvalue(c):
+    """kind nsvalue: type U0 and constants K0 = { tag: "k", n: 1 } as const, K<i> = K<i-1>.  Single file: the root spells the namespace
+    object out ({ api: { K0: typeof K0, ... }, u: U0 }).  Split: the constants (and U0 with K0) live in m-files that import each
+    other by name, hub.ts re-exports every name BY NAME (export { U0, K0 } from "./m0"), and entry.ts says
+    import * as api from "./hub"; import { U0 } from "./hub"; type T = { api: typeof api; u: U0 }."""
+    n, fof = c["len"], c["files"]
+    u0 = 'type U0 = { tag: "k"; n: 1 };'
+    k = lambda i: f"const K{i} = " + ('{ tag: "k", n: 1 } as const;' if i == 0 else f"K{i - 1};")
+    if all(f == "entry" for f in fof):
+        api = "; ".join(f"K{i}: typeof K{i}" for i in range(n + 1))
+        body = "\n".join([u0] + [k(i) for i in range(n + 1)] + [f"type T = {{ api: {{ {api} }}; u: U0 }};", "parse.buildParsers<{ T: T }>();"]) + "\n"
+        return [("entry.ts", body)]
+    by_file = {}
+    for i in range(n + 1):
+        by_file.setdefault(fof[i], []).append(i)
+    files = [("entry.ts", 'import * as api from "./hub";\nimport { U0 } from "./hub";\ntype T = { api: typeof api; u: U0 };\nparse.buildParsers<{ T: T }>();\n')]
+    hub = []
+    for f in sorted(by_file):
+        links = by_file[f]
+        lines = []
+        first = links[0]
+        if first > 0 and fof[first - 1] != f:
+            lines.append(f'import {{ K{first - 1} }} from "./m{fof[first - 1]}";')
+        if 0 in links:
+            lines.append("export " + u0)
+        lines += ["export " + k(i) for i in links]
+        files.append((f"m{f}.ts", "\n".join(lines) + "\n"))
+        names = (["U0"] if 0 in links else []) + [f"K{i}" for i in links]
+        hub.append(f'export {{ {", ".join(names)} }} from "./m{f}";')
+    files.append(("hub.ts", "\n".join(hub) + "\n"))
+    return files
+
+
 def chain_probes():
     S = lambda x: {"k": "str", "s": x}
     N = lambda x: {"k": "num", "n": str(x)}
@@ -313,6 +348,9 @@ def chain_probes():
         gen = O(v=gen)
         ifc = dict(ifc, **{f"p{i}": N(i)})
         bad_ifc = dict(ifc, **{f"p{i}": S("no")})
+        # kind nsvalue: the namespace object with every constant, and the type
+        ps += [O(api=O(**{f"K{j}": k0 for j in range(i + 1)}), u=k0), O(api=O(**{f"K{j}": k0 for j in range(i + 1)}), u=O(tag=S("k"), n=N(2))),
+               O(api=O(**{f"K{j}": k0 for j in range(i)}), u=k0)]
         ps += [prev, O(prev=prev["ps"][0]["v"], n=N(i + 1)), tup, A(tup["es"][0], N(i + 1)), gen, O(v=O(v=N(1))),
                O(**ifc), O(**bad_ifc), O(**{k: v for k, v in ifc.items() if k != "p0"})]
     return ps
